@@ -6,7 +6,7 @@ def run(ctx):
     quick = ctx.tier == 'quick'
     d = 34 if quick else 46
     cfg = dict(nt=1, nx=1, sync=True, rollback=False, faults=True, crash=False)
-    bad = ['bad:c10-send-with-stale-election-id', 'bad:c10-send-before-resync', 'bad:range']
+    bad = ['bad:c10-send-with-stale-election-id', 'bad:c10-send-before-resync', 'bad:c10-resync-without-repush', 'bad:range']
     queries = [('reach', 30, ['reach:tx1-applied']), ('reach', 30, ['reach:resynced-in-second-term'])] + [('bad', d, [b]) for b in bad]
     configs = [('1x1sf', cfg, queries, ['c10'])]
     if not quick:
